@@ -1623,6 +1623,8 @@ class Exec:
         spec.havoc(self, env)
         heap1 = {(o.oid, k): fingerprint(v) for o in list(REGISTRY) for k, v in o.f.items()}
         havocked = {key_ for key_ in heap1 if heap0.get(key_, ('absent',)) != heap1[key_]}
+        if hasattr(spec, 'heap_havocs'):      # fields the havoc re-creates even when the generic value happens to equal the old one (e.g. an empty table)
+            havocked |= {(o.oid, k) for o, k in spec.heap_havocs(self, env)}
         keep = set(getattr(spec, 'keeps', ()))
         for n, old_v in list(before.items()) + list(cells.items()):
             if n in keep:
